@@ -35,7 +35,9 @@ ENGINES = ["lean-model", "kopfsim", "pyextract"]
 TIE = ("S: real infinite_watch vs the Lean world machine, act by act, on seeded fault scripts; D: what the real namespace observer "
        "was fed (listing, listed items, events) and insights.namespaces after each item vs the Lean `evView`; A': the real orchestrator's "
        "label trace (revise/acquire/termDone/spawnAll/die, from hooks on insights.revised.notify_all, terminate_redundancies, adjust_tasks, "
-       "task done-callbacks) replayed by the Lean LTS: every label enabled, same keys after each pass; "
+       "task done-callbacks) replayed by the Lean LTS: every label enabled, same keys after each pass, and when the run has come to rest (the last "
+       "revision lies well before its end, no pass cut off) the model sits in wait() with no wake-up owed (C19.orchEnd: every revision "
+       "was followed by a pass); "
        "A: real adjust_tasks vs the Lean ensemble on insight histories; T: AST check that orchestrator() awaits adjust_tasks "
        "inside `async with insights.revised` (re-proved equal to the model's locked variant) and that the operator's pause toggles are "
        "handed over orchestrator → Ensemble → queueing.watcher → infinite_watch (Tie.pause_wired), and that revise_resources builds "
@@ -80,7 +82,11 @@ LEVEL_TEXT = (
     "exactly_one_watch_lingering_witness = open C19-F3). For ALL interleavings of observer revisions, task deaths and orchestrator "
     "segments around insights.revised: pass_progress (enabledness), no_lost_wakeup, exactly_one_watch_async_partial, "
     "served_pairs_live_async_partial (guard: no death since the last pass; death_while_idle_witness = open C19-F6), "
-    "unlocked_pass_loses_wakeup_witness. The models are hand-written and tied to the code by correspondence runs; the pass-under-lock "
+    "unlocked_pass_loses_wakeup_witness; any_revision_heals (FULL: from every reachable waiting state, whatever watchers have exited "
+    "since the last pass, EVERY revision of the insights — in particular one that leaves them as they were — is followed by a pass "
+    "after which every served pair has a running watcher: the bound of C19-F6, 'until the next revision'), skip_noop_revisions_witness "
+    "(the variant Model/C19_OrchSkip, an orchestrator that skips the revisions which do not change its snapshot of the insights, "
+    "never heals, for any number of such revisions: the unconditional pass is load-bearing; seeded change C19f). The models are hand-written and tied to the code by correspondence runs; the pass-under-lock "
     "shape of orchestrator() is re-extracted from the AST on every run.")
 THEOREMS = [("Kopf.Props.C19", "Kopf.C19." + n) for n in [
     # one watch-stream, all adversary scripts
@@ -103,7 +109,9 @@ THEOREMS = [("Kopf.Props.C19", "Kopf.C19." + n) for n in [
     "exactly_one_watch_partial", "exactly_one_watch_lingering_witness",
     # the orchestrator around insights.revised, all interleavings
     "pass_progress", "no_lost_wakeup", "exactly_one_watch_async_partial", "served_pairs_live_async_partial",
-    "death_while_idle_witness", "unlocked_pass_loses_wakeup_witness"]]
+    "death_while_idle_witness", "unlocked_pass_loses_wakeup_witness",
+    # after a watcher has exited on its own: every revision — also one that changes nothing — sets off a pass that replaces it
+    "any_revision_heals", "skip_noop_revisions_witness"]]
 TIE_THEOREMS = [("Kopf.Tie.C19", "Kopf.C19.Tie.pass_under_lock"), ("Kopf.Tie.C19", "Kopf.C19.Tie.pause_wired"),
                 ("Kopf.Tie.C19", "Kopf.C19.Tie.patch_kinds_eq")]
 RULE = ("stream scripts: first resourceVersion just below 10/100/1000 in 35 % of the scripts (the versions change their digit count "
@@ -116,7 +124,11 @@ RULE = ("stream scripts: first resourceVersion just below 10/100/1000 in 35 % of
         "breaks, and 'meta' runs that break/compact/410 the observers' own namespaces/CRD watch-streams with namespaces/CRDs created or "
         "deleted inside the re-list gap and between the two start-up listings, and 'crdedit' runs that modify a CRD in place (version "
         "added/removed, preferred version flipped, categories/short names changed) under handlers selecting by bare name, category and "
-        "short name; 'pause' runs (the whole operator paused and resumed while objects / namespaces / CRDs change, checkpoints inside the pause), 'nsterm' "
+        "short name; 'heal' runs (a watcher exits on HTTP 404 — a one-off 404 on its reconnect, or its CRD deleted and re-created within the lag "
+        "of the CRD events (meta_lag 0.5-1 s) / two round-trips later without any lag / slower than the lag / behind a busy orchestrator — and "
+        "then 0-3 namespace/CRD events follow, most of which revise the insights WITHOUT changing them: the victim's CRD or a neighbour's "
+        "touched in place, a CRD nobody serves added/removed, a label on a namespace, a namespace outside the patterns; then the victim's "
+        "objects change); 'pause' runs (the whole operator paused and resumed while objects / namespaces / CRDs change, checkpoints inside the pause), 'nsterm' "
         "runs (namespaces Terminating with mixed conditions, then finished; some Terminating at start-up), 'restricted' runs (403 on the namespace listing or "
         "watch, scanning disabled; exact names among the patterns), 'kinds' runs (daemons, timers, indices, create/update/delete/resume handlers, alone or "
         "beside on.event; verbs without patch / watch / list); pure cases: revise_namespaces over a listing of 0-7 namespaces (bodies live / marked without "
@@ -272,6 +284,9 @@ F10_SIG = {"site": "observation._disable_unsuitable_resources",
            "shape": "read-only resource served by on.event/index handlers only is dropped because ANOTHER non-patchable resource has a patching handler"}
 F4_SIG = {"site": "orchestration.spawn_missing_watchers",
           "shape": "dead watcher task (ended with an exception) keeps its key: the served pair is never watched again"}
+# not a finding: the clause that bounds C19-F6's excuse from the cluster's side ("… until the next revision")
+UNHEALED_SIG = {"site": "orchestration.orchestrator",
+                "shape": "watcher that exited on HTTP 404 is not replaced although namespace/CRD events (each one a revision of the insights) followed"}
 
 # first versions just below a power of ten (two namespaces exist from the start: 6 → the first objects get 9, 10, 11, …)
 RV_STARTS = [5, 6, 7, 94, 95, 96, 97, 994, 996, 997]
@@ -991,6 +1006,88 @@ def gen_crdedit(rng: random.Random, seed: int) -> dict:
             "timeline": tl, "end": t + 6.0}
 
 
+def gen_heal(rng: random.Random, seed: int) -> dict:
+    """A watcher exits on its own (HTTP 404) and THEN the cluster goes on living: the class behind C19-F6's '… until the
+    next revision'. The exit: a served resource answers 404 once while its stream is re-opened (API hiccup), or its CRD
+    is deleted and re-created — within the lag of the CRD events (the observer's re-scan on the late DELETED already
+    finds the resource again: the insights never change), or slower than it (they do change, twice). The life after: a
+    CRD touched in place (the victim's, a neighbour's in the same API group, one of another group), a CRD nobody
+    serves added or removed, a label on a served namespace, a namespace outside the patterns created, a matching one
+    created or removed — 1-3 of them, most of which REVISE THE INSIGHTS WITHOUT CHANGING THEM — or nothing at all
+    (the residue that stays open as C19-F6). Afterwards the victim's objects change; checkpoints well after."""
+    clusterwide = rng.random() < 0.4
+    pool = ["kopfexamples", "widgets", "clusterthings"]
+    victim = rng.choice(["kopfexamples", "kopfexamples", "widgets", "clusterthings"])
+    handlers = sorted({victim} | {p for p in pool if rng.random() < 0.35})
+    init_res = sorted(set(handlers) | {p for p in pool if rng.random() < 0.5})
+    init_ns = ["team-a"] + [n for n in ["team-b", "other"] if rng.random() < 0.5]
+    sc: dict = {"seed": seed, "heal": True, "clusterwide": clusterwide, "patterns": ["team-*"], "handlers": handlers,
+                "initial_resources": init_res, "initial_namespaces": init_ns}
+    tl: list[list] = [[1.0, "create", victim, "team-a", "x"], [3.0, "check"]]
+    t = 4.0
+    how = rng.choice(["hiccup", "hiccup", "flap-in-lag", "flap-in-lag", "flap-in-lag", "flap-slow", "flap-busy", "flap-blink"])
+    if how == "hiccup":
+        tl.append([t, "fail", victim, "404", 1])
+        tl.append([t, "break", victim, rng.choice(["410", "eof", "conn"])])
+        t += 1.0
+    elif how == "flap-busy":
+        # the CRD comes back while the orchestrator is busy with a pass (a handler in flight in a namespace that goes):
+        # the revisions queue up behind the lock and are seen as one
+        other = rng.choice([p for p in pool if p != victim])
+        sc.update({"clusterwide": False, "handler_sleep": rng.choice([0.5, 1.0]), "settings": {"exit_timeout": 2.0},
+                   "handlers": sorted(set(handlers) | {other}), "initial_resources": sorted(set(init_res) | {other}),
+                   "initial_namespaces": sorted(set(init_ns) | {"team-c"})})
+        tl[0] = [1.0, "create", other, "team-c", "x"]
+        tl.append([t, "edit", other, "team-c", "x"])
+        tl.append([t + 0.125, "del_ns", "team-c"])
+        tl.append([t + 0.125, "del_res", victim])
+        tl.append([t + 0.125 + rng.choice([0.25, 0.3125, 0.5]), "add_res", victim])
+        t += 4.0
+    elif how == "flap-blink":
+        # no lag at all: the CRD is back two round-trips later, after the watcher's reconnect (404) and before the re-scan
+        # that the DELETED event sets off has read the API group (three requests)
+        tl.append([t, "del_res", victim])
+        tl.append([t + rng.choice([1 / 32, 1 / 32, 3 / 64]), "add_res", victim])
+        t += 2.0
+    else:
+        lag = rng.choice([0.5, 0.75, 1.0])
+        sc["meta_lag"] = {"customresourcedefinitions": lag, **({"namespaces": rng.choice([0.25, 0.5])} if rng.random() < 0.3 else {})}
+        # the stream closes with the CRD; the watcher re-lists after the 0.125 s reconnect back-off and gets the 404
+        back = rng.choice([1 / 32, 0.125, 0.1875, 0.25, 0.375]) if how == "flap-in-lag" else lag + rng.choice([0.25, 0.5, 1.0])
+        tl.append([t, "del_res", victim])
+        tl.append([t + back, "add_res", victim])
+        t += back + lag + 1.0
+    after = []
+    for _ in range(rng.choice([0, 1, 1, 1, 2, 3])):
+        q = rng.random()
+        same_group = [p for p in pool if p != victim and GVP[p][0] == GVP[victim][0]]
+        other_group = [p for p in pool if GVP[p][0] != GVP[victim][0]]
+        if q < 0.2:
+            after.append(["touch_crd", victim])
+        elif q < 0.35 and same_group:
+            after.append(["touch_crd", rng.choice(same_group)])
+        elif q < 0.45 and other_group:
+            after.append(["touch_crd", rng.choice(other_group)])
+        elif q < 0.6:
+            after.append([rng.choice(["add_res", "del_res"]), rng.choice([p for p in pool if p != victim])])
+        elif q < 0.75:
+            after.append(["touch_ns", rng.choice(["team-a", "other", "default"])])
+        elif q < 0.85:
+            after.append(["add_ns", rng.choice(["elsewhere", "other"])])
+        else:
+            after.append([rng.choice(["add_ns", "add_ns", "del_ns"]), rng.choice(["team-b", "team-c"])])
+    for o in after:
+        tl.append([t] + o)
+        t += rng.choice([0.0, 1 / 64, 0.5, 1.0])
+    t += 1.0
+    tl.append([t, "create", victim, "team-a", "x"])
+    tl.append([t + 0.5, "edit", victim, "team-a", "x"])
+    t += 6.0
+    tl.append([t, "check"])
+    sc.update({"how": how, "timeline": tl, "end": t + 2.0})
+    return sc
+
+
 # namespace pattern sets (kopf's syntax: globs, comma-lists, negations; several patterns = any of them)
 PATTERN_SETS = [["team-*"], ["team-*"], ["team-a", "team-b"], ["team-*", "other"], ["team-*,!team-b"], ["!other,!default,!ns"],
                 ["team-?", "oth*"], ["*-a, *-c", "other"], ["team-*, !team-*, team-b"], ["team-a", "team-*,!team-a"]]
@@ -1288,10 +1385,64 @@ def _in_gap(sc: dict, kind: str, name: str) -> bool:
     return any(o[1] in ops and o[2] == name and any(g[0] <= o[0] <= g[1] for g in gaps[meta]) for o in sc["timeline"])
 
 
-def _died_unnoticed(r: dict, pair: tuple, t: float) -> bool:
-    """The watcher of `pair` ended on its own (its task was done) and no adjust_tasks pass has STARTED since (up to t)."""
-    ds = [d[2] for d in r.get("deaths", []) if (d[0], d[1]) == tuple(pair) and d[2] <= t]
-    return bool(ds) and not any(p[0] >= max(ds) and p[0] <= t for p in r.get("passes", []))
+def _revision_causes(sc: dict, r: dict) -> list:
+    """[(time of delivery, what)]: the moments at which the CLUSTER handed the operator an event of a namespace or of a
+    CRD. Every such event makes an observer revise the insights and notify the orchestrator, whether the event changes
+    what is served or not (a CRD touched, re-applied, deleted and re-created in a blink; a label on a namespace; a
+    namespace or CRD nobody serves). Read off the stored versions of the fake API server only — never off the operator:
+    CRD events count unless scanning is disabled; namespace events count for a namespaced operator that may list and
+    watch namespaces; an event stored while its meta-watch is down and re-LISTS (open C19-F8) does not count; the
+    delivery is late by the scenario's `meta_lag`."""
+    lag = sc.get("meta_lag") or {}
+    gaps = _meta_gaps(sc)
+    out = []
+    if not sc.get("scanning_disabled"):
+        for t, name, ev in r.get("crd_events", []):
+            if not any(g[0] <= t <= g[1] for g in gaps["customresourcedefinitions"]):
+                out.append((t + float(lag.get("customresourcedefinitions", 0.0)), f"CRD {name} {ev} at t={t}"))
+        if not sc.get("clusterwide", True) and not sc.get("ns_forbidden"):
+            for t, name, ev in r.get("ns_events", []):
+                if not any(g[0] <= t <= g[1] for g in gaps["namespaces"]):
+                    out.append((t + float(lag.get("namespaces", 0.0)), f"namespace {name} {ev} at t={t}"))
+    return sorted(out)
+
+
+def _exited_on_404(r: dict, pair: tuple, t: float) -> float | None:
+    """The time of the LAST list/watch request for `pair` up to t if the API server answered it 404 (the watcher of the
+    pair exits on that answer and sends nothing more), else None."""
+    qs = [q for q in r.get("obj_requests", []) if (q["plural"], q["ns"]) == tuple(pair) and q["t"] <= t]
+    # the log keeps the time a request was SENT; its answer — and with it the watcher's exit — comes one round-trip later
+    # (harness/sim/fakeapi.LATENCY = 1/64 s, the same for every request of these runs)
+    return qs[-1]["t"] + 1 / 64 if qs and qs[-1]["response"] == 404 else None
+
+
+def _settle(sc: dict) -> float:
+    # an event → the observer's re-scan → the lock → a pass (which may wait `exit_timeout` for a handler in flight) → list → watch
+    return 1.0 + float((sc.get("settings") or {}).get("exit_timeout", 2.0)) + float(sc.get("handler_sleep") or 0.0)
+
+
+def _healing_due(sc: dict, r: dict, pair: tuple, t: float) -> str | None:
+    """The watcher of `pair` exited on HTTP 404 and AFTER that the cluster delivered a namespace/CRD event, long enough
+    before t: the insights were revised after the exit, the pair must be watched again (what C19-F6 leaves of the
+    clause 'exactly one watch per served pair': '… until the next revision'). Returns the evidence, or None."""
+    t404 = _exited_on_404(r, pair, t)
+    if t404 is None:
+        return None
+    # the watcher's task ends at once on the 404 — unless a handler of one of ITS objects is in flight: then the watcher waits
+    # for its workers (up to `exit_timeout`) before it ends, and a revision in between still finds the task running
+    hs = float(sc.get("handler_sleep") or 0.0)
+    busy = hs > 0 and any(c["res"] == pair[0] and (pair[1] is None or c["ns"] == pair[1]) and t404 - hs - 0.125 <= c["t"] <= t404 + 0.125
+                          for c in r.get("calls", []))
+    slack = float((sc.get("settings") or {}).get("exit_timeout", 2.0)) + hs if busy else 0.0
+    due = [what for td, what in _revision_causes(sc, r) if t404 + slack < td <= t - _settle(sc)]
+    return f"its last request (sent at t={t404 - 1 / 64}) was answered 404; delivered after that: {due[:3]}" if due else None
+
+
+def _died_unnoticed(sc: dict, r: dict, pair: tuple, t: float) -> bool:
+    """The excuse of open finding C19-F6, judged from the cluster's side only (never from what the orchestrator did:
+    'no pass has run' is what a broken orchestrator shows as well): the watcher of `pair` exited on HTTP 404 and the
+    cluster has delivered NO namespace/CRD event since."""
+    return _exited_on_404(r, pair, t) is not None and _healing_due(sc, r, pair, t) is None
 
 
 def _recreated(sc: dict, name: str) -> bool:
@@ -1360,8 +1511,13 @@ def oracle_operator(sc: dict, r: dict) -> list[tuple[str, dict]]:
             elif not dup and not extra and missing and all(SCOPE[m[0]] and m[1] is not None and _recreated(sc, m[1]) for m in missing):
                 fails.append((f"t={c['t']}: served pair(s) {missing} have no watch: the namespace was deleted and re-created, and the "
                               "DELETED of the old incarnation was applied after the ADDED of the new one", F7_SIG))
+            elif not extra and not dup and missing and any(_healing_due(sc, r, m, c["t"]) for m in missing):
+                ev = [f"{m}: {_healing_due(sc, r, m, c['t'])}" for m in missing if _healing_due(sc, r, m, c["t"])]
+                fails.append((f"t={c['t']}: served pair(s) {missing} have no watch: the watcher exited on HTTP 404, the cluster delivered "
+                              f"namespace/CRD events afterwards (every one of them revises the insights), and no watch was opened again: {ev}",
+                              UNHEALED_SIG))
             elif not extra and not dup and missing and all(m[0] in r.get("not_found", []) for m in missing) and \
-                    all(_died_unnoticed(r, m, c["t"]) for m in missing):
+                    all(_died_unnoticed(sc, r, m, c["t"]) for m in missing):
                 fails.append((f"t={c['t']}: served pair(s) {missing} have no watch: the watcher exited on HTTP 404 and no revision of the "
                               "insights followed, so no pass has replaced it", F6_SIG))
             elif not extra and not dup and missing and all(m[0] in r.get("not_found", []) for m in missing):
@@ -1438,10 +1594,15 @@ def oracle_operator(sc: dict, r: dict) -> list[tuple[str, dict]]:
                                   "was down and is not served", F8_SIG))
                 elif not pair_open and SCOPE[plural] and ns is not None and _recreated(sc, ns):
                     fails.append((f"{plural}/{ns}/{name} is at version {rv}, never handled: its re-created namespace is not served", F7_SIG))
-                elif (plural, ns if SCOPE[plural] and ok_ns is not None else None) not in open_now and plural in r.get("not_found", []) and \
-                        _died_unnoticed(r, (plural, ns if SCOPE[plural] and ok_ns is not None else None), last["t"]):
+                elif not pair_open and _healing_due(sc, r, (plural, ns if SCOPE[plural] and ok_ns is not None else None), last["t"]):
+                    why = _healing_due(sc, r, (plural, ns if SCOPE[plural] and ok_ns is not None else None), last["t"])
                     fails.append((f"{plural}/{ns}/{name} is at version {rv}, the last version a handler saw is {seen.get((plural, ns, name))}: "
-                                  "its watcher exited on HTTP 404 and no pass of adjust_tasks has run since", F6_SIG))
+                                  f"its watcher exited on HTTP 404, namespace/CRD events followed, and no watch was opened again ({why})",
+                                  UNHEALED_SIG))
+                elif (plural, ns if SCOPE[plural] and ok_ns is not None else None) not in open_now and plural in r.get("not_found", []) and \
+                        _died_unnoticed(sc, r, (plural, ns if SCOPE[plural] and ok_ns is not None else None), last["t"]):
+                    fails.append((f"{plural}/{ns}/{name} is at version {rv}, the last version a handler saw is {seen.get((plural, ns, name))}: "
+                                  "its watcher exited on HTTP 404 and the cluster has delivered no namespace/CRD event since", F6_SIG))
                 elif plural in r.get("not_found", []) and (plural, ns if SCOPE[plural] else None) not in \
                         {(w[0], w[1]) for w in last["watches"]} and (plural, None) not in {(w[0], w[1]) for w in last["watches"]}:
                     fails.append((f"{plural}/{ns}/{name} is at version {rv}, the last version a handler saw is {seen.get((plural, ns, name))}: "
@@ -1463,7 +1624,7 @@ def eval_operator(sc: dict) -> dict:
     fails = oracle_operator(sc, r)
     churn = [o[1] for o in sc["timeline"] if o[1] in ("add_ns", "del_ns", "add_res", "del_res", "add_version", "del_version",
                                                        "set_preferred", "set_categories", "set_shortnames",
-                                                       "term_ns", "fin_ns", "pause", "resume")]
+                                                       "term_ns", "fin_ns", "pause", "resume", "touch_crd", "touch_ns")]
     nsreq = nsimpl = nsimpl2 = None
     feed = r.get("ns_feed") or []
     nsreq2 = None
@@ -1505,8 +1666,17 @@ def eval_operator(sc: dict) -> dict:
                           {"site": "observation.namespace_observer", "shape": "insights after the first listing != matching namespaces"}))
     trace = r.get("orch_trace") or []
     # a pass cut off by the end of the run is dropped (the trace must end after a spawnAll, or in wait())
+    cut = False
     while trace and trace[-1][0] in ("acquire", "termDone"):
         trace = trace[:-1]
+        cut = True
+    # at rest — the last revision of the insights lies well before the end of the run, no pass was cut off — the real
+    # orchestrator has had every chance to run: the model, fed the same labels, must sit in `wait()` with no wake-up pending
+    # (`pass_progress`: from any other state a segment of the orchestrator is enabled, i.e. a pass is still owed)
+    revs = r.get("revisions") or []
+    at_rest = bool(trace) and not cut and bool(revs) and revs[-1][0] <= r.get("t_end", 0.0) - _settle(sc)
+    snaps = [json.dumps(x[1], sort_keys=True) for x in revs]
+    noop_revisions = sum(1 for a, b in zip(snaps, snaps[1:]) if a == b)
     # a watcher that is being stopped by this very pass (redundant) and ends meanwhile is not a death on its own:
     # drop `die k` inside a pass when `k` is not in the ensemble after that pass
     filtered: list = []
@@ -1525,6 +1695,8 @@ def eval_operator(sc: dict) -> dict:
     return {"sc": sc, "fails": fails, "churn": churn, "checkpoints": len(r["checkpoints"]), "nsreq": nsreq, "nsimpl": nsimpl,
             "nsreq2": nsreq2, "nsimpl2": nsimpl2, "pauses": len(r.get("pauses") or []),
             "orchreq": orchreq, "orchimpl": orchimpl,
+            "orchendreq": ["C19.orchEnd", orchreq[1]] if orchreq is not None and at_rest else None,
+            "n404": len(r.get("not_found_log") or []), "noop_revisions": noop_revisions,
             "watch_requests": len(r["watch_requests"]), "calls": len(r["calls"]),
             "shape": [[c["watches"], c["resources"], c["namespaces"]] for c in r["checkpoints"]],
             "detail": r if fails else None}
@@ -1851,7 +2023,14 @@ def absorb(ctx: Ctx, res: dict, source: str, pending: dict) -> None:
                  sample={"scenario": case, "checkpoints": res["shape"]} if res["churn"] else None)
         for c in res["churn"]:
             ctx.count("operator_churn", c)
-        ctx.count("operator_runs", "rapid" if case.get("rapid") else "meta" if case.get("meta") else "crdedit" if case.get("crdedit") else
+        if case.get("heal"):
+            ctx.count("heal_runs", "exit: " + case["how"])
+            for o in case["timeline"]:
+                if o[1] in ("touch_crd", "touch_ns"):
+                    ctx.count("heal_runs", "afterwards: " + o[1])
+            ctx.count("heal_runs", "HTTP 404 answered to a watcher" if res.get("n404") else "no watcher met a 404")
+            ctx.count("heal_runs", "revisions that left the insights as they were", res.get("noop_revisions", 0))
+        ctx.count("operator_runs", "heal" if case.get("heal") else "rapid" if case.get("rapid") else "meta" if case.get("meta") else "crdedit" if case.get("crdedit") else
                   "pause" if case.get("pauseop") else "nsterm" if case.get("nsterm") else "restricted:" + str(case["restricted"]) if case.get("restricted") else
                   "kinds" if case.get("kinds") else "churn")
         ctx.count("operator_patterns", json.dumps(case.get("patterns")))
@@ -1868,6 +2047,11 @@ def absorb(ctx: Ctx, res: dict, source: str, pending: dict) -> None:
             ctx.count("orchestrator_tie", "labels", len(res["orchreq"][1]))
             for l in res["orchreq"][1]:
                 ctx.count("orchestrator_labels", l[0])
+        if res.get("orchendreq") is not None:
+            pending["reqs"].append(res["orchendreq"])
+            pending["impl"].append({"orchestrator_at_rest": "waiting"})
+            pending["where"].append({"kind": kind, "case": case})
+            ctx.count("orchestrator_tie", "runs compared at rest (no wake-up owed)")
         if res.get("nsreq") is not None:
             pending["reqs"].append(res["nsreq"])
             pending["impl"].append({"after": res["nsimpl"]})
@@ -1902,6 +2086,9 @@ def compare_with_model(ctx: Ctx, pending: dict) -> None:
             keys = [sorted(([k[0], k[1]] for k in row), key=str) for l, row in zip(labels, out[1]) if l[0] == "spawnAll" and row != "disabled"]
             ctx.compare("C19 orchestrator protocol (label trace accepted, keys after each pass)", impl,
                         {"enabled": enabled, "keys_after_each_pass": keys}, wh)
+        elif req[0] == "C19.orchEnd":
+            ctx.compare("C19 orchestrator at rest (every revision of the insights was followed by a pass)", impl,
+                        {"orchestrator_at_rest": out[1]}, wh)
         elif req[0] == "C19.nsfold":
             ctx.compare("C19 namespace insights (observer feed → insights.namespaces)", impl, {"after": out[1]}, wh)
         elif req[0] == "C19.nsrevise":
@@ -1952,7 +2139,8 @@ def run(ctx: Ctx) -> None:
         items.append(("operator", gen_meta(rng, base + i)))
         sources.append("generated")
     ctx.count("cases", "operator-meta", n_meta)
-    for tag, gen, n in (("pause", gen_pauseop, ctx.budget(60, 800)), ("nsterm", gen_nsterm, ctx.budget(60, 800)),
+    for tag, gen, n in (("heal", gen_heal, ctx.budget(90, 1500)),
+                        ("pause", gen_pauseop, ctx.budget(60, 800)), ("nsterm", gen_nsterm, ctx.budget(60, 800)),
                         ("restricted", gen_restricted, ctx.budget(30, 400)), ("kinds", gen_kinds, ctx.budget(80, 1000))):
         for i in range(n):
             items.append(("operator", gen(rng, base + i)))
@@ -1995,7 +2183,7 @@ def search(ctx: Ctx, broken: list) -> None:
     for i in range(ctx.budget(6000, 60000)):
         items.append(("purens", gen_pure_ns(rng, 7_000_000 + i)))
         items.append(("pureres", gen_pure_res(rng, 7_000_000 + i)))
-    for gen in (gen_pauseop, gen_nsterm, gen_restricted, gen_kinds, gen_operator):
+    for gen in (gen_heal, gen_rapid, gen_pauseop, gen_nsterm, gen_restricted, gen_kinds, gen_operator):
         for i in range(ctx.budget(100, 1000)):
             items.append(("operator", gen(rng, 7_000_000 + i)))
     open_sigs = [F3_SIG, F5_SIG, F6_SIG, F7_SIG, F8_SIG]
